@@ -252,6 +252,17 @@ func runC13(tw *TraceWriter, id int, c *Case) {
 			return r.status + ":" + string(r.out)
 		}
 		shared := NewBuilder().Codes(g.Items)
+		// ... the same for Add(items...): two statements started from ONE slice that has spare capacity, each continued
+		// with tokens of its own - the first one still ends in its own tokens
+		if len(g.Items) > 0 {
+			room := append(make([]jen.Code, 0, len(shared)+6), NewBuilder().Codes(g.Items)...)
+			s1 := jen.Add(room...).Op("*").Id("tailOne")
+			jen.Add(room...).Op("/").Id("tailTwo")
+			f1 := jen.Add(NewBuilder().Codes(g.Items)...).Op("*").Id("tailOne")
+			if render(s1) != render(f1) && again == "same" {
+				again = "slice"
+			}
+		}
 		if ctor(shared) == nil {
 			return
 		}
